@@ -43,7 +43,7 @@ DIALECTS = {
     "named_excel_tab": {"dialect": "excel-tab"},
 }
 ENCODINGS = [None, "utf-8", "utf-16", "latin-1"]
-STRINGS = ["x", "x", "y", "a,b", 'q"q', "x\ny", "x\r\ny", "x\ry", "é", "ü;ö", "a;b", "a\tb", "a|b", "it's", "back\\slash", " lead", "trail ", "", "日本", "‑dash", "x" * 9000, "a\x0bb", "a\x0cb\x1c", "a\x85b", "a\u2028b\u2029"]
+STRINGS = ["x", "x", "y", "a,b", 'q"q', "x\ny", "x\r\ny", "x\ry", "é", "ü;ö", "a;b", "a\tb", "a|b", "it's", "back\\slash", " lead", "trail ", "", "日本", "‑dash", "x" * 9000, "a\x0bb", "a\x0cb\x1c", "a\x85b", "a\u2028b\u2029", "__none", "_none_", '"lead']
 LATIN1 = [s for s in STRINGS if all(ord(c) < 256 for c in s)]
 
 
@@ -68,7 +68,8 @@ def cases(draw, max_ops):
     strings = LATIN1 if enc == "latin-1" else STRINGS
     cfg = {"flush_on_insert": draw(st.sampled_from([True, True, False])), "encoding": enc, "dialect": draw(st.sampled_from(sorted(DIALECTS))), "auto_index": draw(st.booleans()), "access_mode": draw(st.sampled_from(["r+", "r+", "r+", "w+"]))}
     pts = wide_pool_points(strings)
-    seed_pts = draw(st.lists(pts, min_size=1, max_size=6))
+    # one case in three starts from 9-16 points: positions above 8 are where orderings of small-int sets stop being ascending
+    seed_pts = draw(st.lists(pts, min_size=1, max_size=6) | st.lists(pts, min_size=1, max_size=6) | st.lists(pts, min_size=9, max_size=16))
     ops = [["insert_multiple", seed_pts, 0, draw(st.sampled_from(["inorder", "asis"])), "db", None, "m1"]]
     one = st.one_of(
         st.tuples(st.just("insert"), pts, st.integers(0, 3), st.booleans(), st.sampled_from(["db", "db_meas", "handle"]), st.booleans()).map(list),
@@ -128,17 +129,24 @@ def row_strings_ok(case):
     """Harness self-check: every string of the case must survive Python's csv under the dialect, and the encoding."""
     d = DIALECTS[case["cfg"]["dialect"]]
     enc = case["cfg"]["encoding"] or csvref.default_encoding()
-    for op in case["ops"]:
-        pts = [op[1]] if op[0] == "insert" else op[1] if op[0] == "insert_multiple" else []
-        for p in pts:
-            strs = [p["measurement"]] + [x for kv in p["tags"].items() for x in kv if x is not None]
-            try:
-                "".join(strs).encode(enc)
-            except UnicodeError:
-                return False
-            if not csvref.csv_roundtrips(["_tag_" + s for s in strs], d):
-                return False
-    return True
+    def strings(x):
+        if isinstance(x, str):
+            yield x
+        elif isinstance(x, dict):
+            for k, v in x.items():
+                yield from strings(k)
+                yield from strings(v)
+        elif isinstance(x, (list, tuple)):
+            for y in x:
+                yield from strings(y)
+
+    # every string anywhere in the history: inserted points, static update arguments, query right-hand sides (harmless)
+    strs = sorted(set(strings(case["ops"])))
+    try:
+        "".join(strs).encode(enc)
+    except UnicodeError:
+        return False
+    return csvref.csv_roundtrips(["_tag_" + s for s in strs], d)
 
 
 def run_case(case, ctx, acc):
